@@ -172,6 +172,25 @@ func VH_C20_NoSampleAfterResend() {
 	vAssert(m.resendBooster.originalTimeout == base0, "timeout recomputed from a retransmitted packet's round trip")
 }
 
+// VH_C20_SampleOnce: one sent packet gives at most one round-trip sample. From
+// an arbitrary valid state a DATA packet is sent and acknowledged; a duplicate
+// of that acknowledgement arriving later (the transport may duplicate) must
+// not be taken for another round trip: base timeout and boost are as the first
+// acknowledgement left them.
+func VH_C20_SampleOnce() {
+	m := vTM(false)
+	seq := vU8("seq")
+	m.Sent(&PacketData{Seq: seq}, false)
+	vAdv("t_d")
+	m.Received(&PacketACK{Seq: seq})
+	base1, bc1 := m.resendBooster.originalTimeout, m.resendBooster.boostCount
+	vAdv("t_e")
+	vReach("dup-ack")
+	m.Received(&PacketACK{Seq: seq})
+	vAssert(m.resendBooster.originalTimeout == base1 && m.resendTimeout == base1, "a duplicate acknowledgement was taken for a fresh round-trip sample (timeout recomputed from a used-up send time)")
+	vAssert(m.resendBooster.boostCount == bc1, "a duplicate acknowledgement reset the boost")
+}
+
 // VH_C20_Static: a statically configured timeout is never changed by traffic.
 func VH_C20_Static() {
 	m := vTM(true)
